@@ -10,7 +10,7 @@ import pexpect
 import pexpect.expect
 from pexpect import EOF, TIMEOUT, fdpexpect
 
-from ..core.acc import confirmed
+from ..core.acc import confirmed, second_attempt
 from ..core.runner import split_range
 from ..core.watchdog import watchdog, CaseTimeout
 from ..workloads import gen_expect as G
@@ -515,7 +515,8 @@ def guarded(case, acc):
             else:
                 one(case, acc)
     except CaseTimeout as e:
-        acc.inconc('watchdog: %s' % e)
+        second_attempt(acc, case, lambda: (timeout0_case if case.get('t0') else one)(case, acc), 60,
+                       'history did not finish within 60 s (every call in it has a timeout of %.1f s)' % T)
 
 
 def is_model_case(case):
